@@ -42,7 +42,7 @@ fn one(drv: &mut Drv, rep: &mut Report, source: &str, stream: &[u8], with_spec: 
     // the proof-friendly twin of the specification (VP8LP.decode, the one the theorems are about)
     // must say what the executable specification says
     if let Some(s) = &spec {
-        if (w as u64) * (h as u64) <= 2500 && stream.len() <= 6000 {
+        if (w as u64) * (h as u64) <= 300 && stream.len() <= 2000 {
             let twin = drv.ask(&format!("vp8lspecp {}", hex(stream)));
             rep.hit("spec_twin_compared");
             if twin != *s {
